@@ -37,6 +37,9 @@ STRENGTHENED = {
     'C18-10': 'one start URL of a fifth of the crawls (and of two forced crawls in every run) is on a host whose connections are refused / whose name does not resolve, with --retry-connrefused / --retry-dns-error; every attempt is logged like a request and the model answers Fail',
     'C18-3': '(regression after a generator change) the first five crawls of every run have forced configurations: robots.txt of the start host answering 503 / rules, an unreachable start host of either kind',
     'C19-9': 'every (gzip / zlib / raw) x (until-close / ignore-length / Content-Length / chunked) pair carries a truncated stream in every run (was: a random draw, about 2 % of the messages per pair)',
+    'C02-9': 'generated paths contain escaped slashes and escaped letters (/d%2Fx.html, /%64/x.html): now a concrete input (was: fail-closed translator only)',
+    'C13-9': 'table-mode predicate: a synchronous source hands nothing out after an effective stop to a producer that was already running: now a concrete schedule (was: lockstep replay only)',
+    'C17-10': 'a sixth of the scripted visits hold back the last reply of the control script for 15-900 virtual seconds',
     'C04-3': 'the scripted connection can be re-connected by the code (the scripted server goes on with its script) and a tenth of the follow-up exchanges find their persistent connection dropped: now a concrete input',
     'C09-4': 'srcset values with empty candidates (trailing / doubled commas, empty, white space only) among the HTML parts: now a concrete input',
     'C09-5': 'CSS escape sequences, among them values above U+10FFFF, in the CSS documents and style attributes: now a concrete input',
